@@ -1093,6 +1093,24 @@ class History:
                 tag, form, type(res).__name__, '-partial' if made else ''))
         self.check('add_subscriptions', m)
 
+    def with_host(self, path):
+        """The path as a caller may hold it: as returned by the manager, or
+        with the host of the server filled in (as paths returned by
+        enumerations of a real server are) - the same instance."""
+        rng = self.rng
+        if rng.random() >= 0.3:
+            return path
+        self.ctx.count('remove.path-with-host')
+        p = path.copy()
+        p.host = rng.choice(['vf-server-one:5988', 'VF-Server-One',
+                             '10.1.2.3:5989'])
+        for k, v in list(p.keybindings.items()):
+            if isinstance(v, pywbem.CIMInstanceName) and rng.random() < 0.5:
+                v = v.copy()
+                v.host = p.host
+                p.keybindings[k] = v
+        return p
+
     def op_remove_subscriptions(self):
         rng = self.rng
         pair = self.pick_reg()
@@ -1104,10 +1122,10 @@ class History:
             return
         if rng.random() < 0.7:
             targets = [rng.choice(subs)]
-            arg = targets[0].path
+            arg = self.with_host(targets[0].path)
         else:
             targets = rng.sample(subs, min(len(subs), rng.randint(1, 3)))
-            arg = [t.path for t in targets]
+            arg = [self.with_host(t.path) for t in targets]
         what = 'manager %r remove_subscriptions(server %d, %r)' % (
             m.id, srv.idx, [t.key[1:] for t in targets])
         self.note(what)
@@ -1146,10 +1164,11 @@ class History:
             rng.shuffle(targets)
         op = 'remove_filter' if kind == FILT else 'remove_destinations'
         if kind == FILT:
-            arg = first.path
+            arg = self.with_host(first.path)
         else:
-            arg = [t.path for t in targets] if len(targets) > 1 or \
-                rng.random() < 0.2 else first.path
+            arg = [self.with_host(t.path) for t in targets] \
+                if len(targets) > 1 or rng.random() < 0.2 \
+                else self.with_host(first.path)
         what = 'manager %r %s(server %d, %r)' % (
             m.id, op, srv.idx, [t.key[1] for t in targets])
         self.note(what)
